@@ -115,8 +115,7 @@ class Run:
         elif form == "none":
             pass
         elif form == "kwargs":
-            nat = values.to_native_kwargs(desc, op.get("kwargs") or {}) if hasattr(values, "to_native_kwargs") else {}
-            kwargs.update(nat)
+            kwargs.update(values.to_native_kwargs(desc, op.get("kwargs") or {}))
         elif form == "both":
             kwargs["request"] = values.to_native(desc, op.get("request") or {})
             kwargs.update(values.to_native_kwargs(desc, op.get("kwargs") or {}))
